@@ -39,9 +39,20 @@ Outcomes == /\ Is("Outcomes") /\ l' = l + 1 /\ UNCHANGED <<full, len, pos, faile
 \* every single-byte alteration of the tensor payload bytes of one stream: flips[k] is the outcome for the k-th payload byte
 Flips == /\ Is("Flips") /\ l' = l + 1 /\ UNCHANGED <<full, len, pos, failed, nobj>>
          /\ \A k \in DOMAIN Ev.outcomes : Ev.outcomes[k] # OK
+\* two elements of a tensor payload exchanged (unequal ones): as any other alteration of the payload
+Swaps == /\ Is("Swaps") /\ l' = l + 1 /\ UNCHANGED <<full, len, pos, failed, nobj>>
+         /\ \A k \in DOMAIN Ev.outcomes : Ev.outcomes[k] # OK
+\* tensor streams of format version 0 (hand-built by the driver; what = "Flips" or "Swaps"): an altered payload is read only if the
+\* altered content collides under the old content hash (collides[k] = 1, computed by the driver with the old hash function)
+FlipsV0 == /\ Is("FlipsV0") /\ l' = l + 1 /\ UNCHANGED <<full, len, pos, failed, nobj>>
+           /\ Len(Ev.outcomes) = Len(Ev.collides)
+           /\ \A k \in DOMAIN Ev.outcomes : Ev.outcomes[k] = OK => Ev.collides[k] = 1
+\* the (major, minor, patch) fields of a configurable object altered to a newer version: the object is not read
+VersionFlips == /\ Is("VersionFlips") /\ l' = l + 1 /\ UNCHANGED <<full, len, pos, failed, nobj>>
+                /\ \A k \in DOMAIN Ev.outcomes : Ev.outcomes[k] # OK
 \* header bytes: detection is not promised, only the absence of a crash (the driver survives to log the record)
 HeaderFlips == /\ Is("HeaderFlips") /\ l' = l + 1 /\ UNCHANGED <<full, len, pos, failed, nobj>> /\ Ev.survived
-Next == Obj \/ Rd \/ Out \/ Outcomes \/ Flips \/ HeaderFlips
+Next == Obj \/ Rd \/ Out \/ Outcomes \/ Flips \/ HeaderFlips \/ Swaps \/ FlipsV0 \/ VersionFlips
 Spec == Init /\ [][Next]_vars
 Accepted == LET d == TLCGet("stats").diameter IN
             IF d - 1 = Len(TraceLog) THEN TRUE ELSE PrintT(<<"REJECTED_AT", d>>) /\ FALSE
